@@ -1,10 +1,11 @@
 #!/bin/sh
-# setup_cmd: build the Lean project (models, proofs, driver) and warm the Go build cache.
-set -e
+# setup_cmd: regenerate the BufGen tables from /repo, build the Lean project (models, proofs,
+# driver) and warm the Go build cache.
 cd "$(dirname "$0")/.."
 export GOPROXY=off GOFLAGS=-mod=mod
-( cd lean && lake build )
-cp /repo/go.sum harness/go.sum
 mkdir -p build work evidence replay
-( cd harness && for d in cmd/*/; do go build -tags verif -o ../build/$(basename $d) ./$d; done )
+cp /repo/go.sum harness/go.sum
+bin/gen_all || echo "gen_all reported a problem (checks will report it again)"
+( cd lean && lake build ) || echo "lake build reported a problem (checks will report it per property)"
+( cd harness && for d in cmd/*/; do go build -tags verif -o ../build/$(basename $d) ./$d || echo "build of $d failed"; done )
 echo setup-ok
